@@ -42,7 +42,7 @@ def plan(tier):
 
 def floors(tier):
     f = {"nontrivial": 40, "held:main": 40, "held:catalogue": 15, "counter:calls_checked": 3000, "counter:rows_checked": 20000,
-         "counter:onestep_returns": 10000, "counter:full_output_dicts_checked": 500, "counter:reinitialised_rounds": 30,
+         "counter:onestep_returns": 10000, "counter:full_output_dicts_checked": 500, "counter:reinitialised_rounds": 30, "counter:offset_clock_rounds": 30,
          "class:single-state": 3, "class:time-dependent": 5, "class:grid-nonuniform": 20, "class:grid-uniform": 20}
     for m in METHODS:
         f["counter:method_%s" % m] = 200
@@ -289,6 +289,29 @@ def run_case(rng, idx, tier, lane, ctx):
                         judge(lab, out, True, tau, entry=entry, method=meth)
                     # and back to the first initial values with the same times once more (alternating re-initialisation)
                 x0 = x0_saved
+        # ---- third round: the same problem on a calendar-like clock (initial time 2020.0 years or ordinal day 737425, output spacing
+        # tiny relative to the absolute time): the solution of the shifted problem at t_off + s is required
+        if last is not None and len(wit) <= 8:
+            gname, g, garg = last
+            t_off = float(rng.choice([2020.0, 737425.0, 1.0e5]))
+            g_off = t_off + np.asarray(g, dtype=float)
+            m.initial_values = (list(x0), t_off)
+            rs = RI.reference(f, x0, t_off, g_off, jac=jac, stiff_hint=(lane == "catalogue" and cls[1] == "cat-Robertson"))
+            if rs.ok:
+                counters["offset_clock_rounds"] = counters.get("offset_clock_rounds", 0) + 1
+                sample["third_round"] = {"t0": t_off, "grid": gname}
+                full = np.vstack([np.asarray(x0, dtype=float)[None, :], rs.x])
+                stiff = stiff_at([x0] + [r for r in rs.x])
+                gof = g_off if rng.random() < 0.5 else g_off.tolist()
+                meth3 = rng.choice(METHODS)
+                for lab, fn, tau, entry, meth in (
+                        ("integrate on an offset clock (t0=%s)" % t_off, lambda: m.integrate(gof), 1.5e-8, "integrate", "odeint"),
+                        ("integrate2(method=%s) on an offset clock (t0=%s)" % (meth3, t_off), lambda: m.integrate2(gof, method=meth3), 1e-10, "integrate2", meth3),
+                        ("integrateFuncJac(full_output=False) on an offset clock (t0=%s)" % t_off,
+                         lambda: ode_utils.integrateFuncJac(m.ode_T, m.jacobian_T, np.array(x0, dtype=float), t_off, gof, includeOrigin=True), 1e-10, "integrateFuncJac", None)):
+                    out = attempt(lab, fn, meth in ("dopri5", "dop853"))
+                    if out is not None:
+                        judge(lab, out, True, tau, entry=entry, method=meth)
     counters["onestep_returns"] = probe.returns
     counters["onestep_returns_aliasing_integrator_buffer"] = probe.aliased
     if not sample["grids"]:
